@@ -8,7 +8,7 @@
    Only pinned statements, closed by [exact lemma], with Print Assumptions. *)
 From Coq Require Import List NArith Bool.
 From FT Require Import Model.Base Model.Local Model.LocalProg Model.Records Model.Collector Model.System
-     Proofs.LocalProofs Proofs.ApiProofs.
+     Proofs.LocalProofs Proofs.ApiProofs Model.FormatStr Proofs.FormatStrProofs.
 Import ListNotations.
 Open Scope N_scope.
 
@@ -52,7 +52,38 @@ Theorem C15_async_poll_restores_context :
     lctx st3 = lctx st.
 Proof. exact poll_restores_context. Qed.
 
+(* PROPERTY VALUES ("format strings evaluated against the arguments").  The macro's
+   unescape_format_string (Model/FormatStr.v: two passes of str::replace, str::contains)
+   decides for every value whether it goes to format!() and what is recorded otherwise.
+   [scan] reads a string the way format!() does -- "{{" and "}}" are the literal braces, a
+   single '{' opens an argument, a single '}' outside one is rejected.  For EVERY string:
+   a value without arguments is recorded as exactly the text format!() would print; a value
+   whose first unescaped brace opens an argument is handed to format!() verbatim. *)
+Theorem C15_literal_value_is_what_format_prints :
+  forall s u, scan s = Lit u -> unescape s = (u, false).
+Proof. exact unescape_literal. Qed.
+
+Theorem C15_value_with_argument_goes_to_format_verbatim :
+  forall s, scan s = Open -> unescape s = (s, true).
+Proof. exact unescape_argument. Qed.
+
+Theorem C15_flagged_value_is_verbatim :
+  forall s, snd (unescape s) = true -> fst (unescape s) = s.
+Proof. exact unescape_flagged_is_verbatim. Qed.
+
+(* non-vacuity, and the one case nothing is claimed about: "}{{}" is rejected by format!() (a
+   lone '}' comes first) but accepted by the macro as the literal "}{}" *)
+Example C15_format_examples :
+  scan [97; 125; 125] = Lit [97; 125] /\ unescape [97; 125; 125] = ([97; 125], false) /\
+  scan [123; 123; 123; 97; 125; 125; 125] = Open /\
+  unescape [123; 123; 123; 97; 125; 125; 125] = ([123; 123; 123; 97; 125; 125; 125], true) /\
+  scan [125; 123; 123; 125] = Close /\ unescape [125; 123; 123; 125] = ([125; 123; 125], false).
+Proof. vm_compute. repeat split; reflexivity. Qed.
+
 Print Assumptions C15_bracket_transparent.
 Print Assumptions C15_bracket_returns.
 Print Assumptions C15_no_local_parent_nothing_recorded.
 Print Assumptions C15_async_poll_restores_context.
+Print Assumptions C15_literal_value_is_what_format_prints.
+Print Assumptions C15_value_with_argument_goes_to_format_verbatim.
+Print Assumptions C15_flagged_value_is_verbatim.
